@@ -26,7 +26,7 @@ func checkC12(c *Ctx) {
 		DumpThor: map[string]string{"MaxCells": "3", "MaxCam": "1"},
 		SampleQ:  "15", SampleT: "2", MaxReplayQ: 1500,
 		Invariants: []string{"InvCanonical"}, Properties: []string{"FailedIsNoop", "BranchLaw", "NoPredLaw"},
-		Gen: genCamProgram, NRandQ: 150, NRandT: 3000,
+		Gen: genCamProgram, NRandQ: 150, NRandT: 12000,
 	})
 }
 
@@ -41,7 +41,7 @@ func checkC14(c *Ctx) {
 		DumpThor:  map[string]string{"MaxCells": "2", "MaxDepth": "4", "MaxMods": "3"},
 		SampleQ:   "600", SampleT: "60", MaxReplayQ: 1500,
 		Invariants: []string{"InvCanonical"}, Properties: []string{"FailedIsNoop", "Frame", "DropLaw", "TokenLaw"},
-		Gen: genAdminProgram, NRandQ: 150, NRandT: 3000,
+		Gen: genAdminProgram, NRandQ: 150, NRandT: 9000,
 	})
 }
 
